@@ -278,7 +278,7 @@ void run_case(Choices &c, Ctx &ctx)
 	for (int f : fs)
 		fl += flagname(f) + " ";
 	ctx.note("tree=" + show(tree, 800) + "\nflags: " + (fs.size() == 64 ? "all 64" : fl));
-	int str_mode = (int)c.pickn(3);
+	int str_mode = (int)c.pickn(4);
 	if (str_mode)
 		ctx.label("strings_with_set_history");
 	check_tree(ctx, tree, fs, str_mode);
